@@ -32,8 +32,19 @@ Arguments OBanana {A}.
 Arguments OExc {A} code.
 
 (* dataReceived's `except` clause: send ERROR, mark the connection abandoned, report -- if the exception is caught at all *)
+(* ABSTENTION is a third outcome, neither "ok" nor "the connection is abandoned": an unslicer semantics that does not model some
+   behaviour of the real unslicers answers OExc 97 / OExc 98 (reserved: no Python exception has these codes), and the receive logic
+   itself abstains on a non-ASCII index token.  Every abstention ends the MODEL's run with the marker event UUnmodelled and nothing
+   else -- no ERROR, no loseConnection is claimed -- so `uabstains` below separates it from a real abandonment, and every theorem
+   about an instance that can abstain says explicitly that it claims nothing about such a run. *)
+Definition abstain_code (k : Z) : bool := (k =? 97) || (k =? 98).
+
 Definition ufatal (code : Z) : list uevent :=
-  if dr_caught code then [UErrorSent; ULose; URecvErr (if code =? 0 then 0 else if code =? 1 then 1 else 2)] else [UEscaped code].
+  if abstain_code code then [UUnmodelled]
+  else if dr_caught code then [UErrorSent; ULose; URecvErr (if code =? 0 then 0 else if code =? 1 then 1 else 2)] else [UEscaped code].
+
+Definition is_unmodelled (e : uevent) : bool := match e with UUnmodelled => true | _ => false end.
+Definition abstained (es : list uevent) : bool := existsb is_unmodelled es.
 
 Section Unsl.
 Variable fr : Type.                                                   (* the state of one unslicer *)
@@ -67,6 +78,12 @@ Definition uctx0 (root : fr) (voc : list (Z * list Z)) : uctx :=
      u_objctr := 0; u_inbObj := 0; u_inbOpen := 0; u_vocab := voc |}.
 
 Inductive uhr := UOk (c : uctx) (es : list uevent) | UFatal (es : list uevent).
+
+(* the three-way reading of a result *)
+Inductive uhr3 := U3Ok (c : uctx) (es : list uevent) | U3Abandoned (es : list uevent) | U3Abstains.
+Definition uview (r : uhr) : uhr3 :=
+  match r with UOk c es => U3Ok c es | UFatal es => if abstained es then U3Abstains else U3Abandoned es end.
+Definition uabstains (r : uhr) : bool := match r with UOk _ _ => false | UFatal es => abstained es end.
 
 Definition upre (es : list uevent) (r : uhr) : uhr :=
   match r with UOk c es' => UOk c (es ++ es') | UFatal es' => UFatal (es ++ es') end.
